@@ -329,8 +329,11 @@ class SimPool:
         ctx.ev("pool", self.id, "W", self.W, "style", self.style, "eager", self.eager)
         ctx.stats[f"pool.W={self.W}"] += 1
         if ctx.fork_mode:
-            from .forkpool import ForkWorkers
-            self.workers = ForkWorkers(self, min(self.W, 3))
+            self._start_workers()
+
+    def _start_workers(self):
+        from .forkpool import ForkWorkers
+        self.workers = ForkWorkers(self, min(self.W, 3))
 
     # ------------------------------------------------------------------ worker assignment
     def _assign_worker(self, call, u):
@@ -620,6 +623,26 @@ class SimPathosPool(SimPool):
     def __init__(self, *args, **kwargs):
         nodes = kwargs.get("nodes", args[0] if args else None)
         super().__init__(nodes)
+
+    def _start_workers(self):
+        # pathos keeps the underlying pool in a global cache: a later ProcessingPool()
+        # is served by the workers forked for an earlier one, until clear()
+        from .forkpool import pathos_workers
+        self.workers = pathos_workers(self)
+        self.W = self.workers.W
+
+    def _shutdown(self):
+        self.workers = None        # cached workers survive this instance
+
+    def clear(self):
+        from .forkpool import pathos_clear
+        pathos_clear(self.ctx)
+        self.workers = None
+
+    def restart(self, force=False):
+        self.clear()
+        if self.ctx.fork_mode:
+            self._start_workers()
 
     def map(self, f, *iterables, **kw):
         return super().map(_Star(f, len(iterables)), _zip(iterables))
